@@ -20,7 +20,7 @@ Pad(s, n) == IF Len(s) >= n THEN s ELSE s \o Zeros(n - Len(s))
 Take(s, n) == SubSeq(s, 1, n)
 Drop(s, n) == SubSeq(s, n + 1, Len(s))
 
-Reverse(s) == [i \in 1..Len(s) |-> s[Len(s) + 1 - i]]
+RevBytes(s) == [i \in 1..Len(s) |-> s[Len(s) + 1 - i]]
 
 XorBytes(a, b) == [i \in 1..Len(a) |-> a[i] ^^ b[i]]
 
